@@ -71,7 +71,7 @@ PROPERTIES = {
     },
     "C05": {
         "level": "other",
-        "rules": ["D1", "F8", "G2"] + a_rules(("udiff.rs",), ["A1", "A3", "A4", "A5"]),
+        "rules": ["D1", "F8", "F10", "G2"] + a_rules(("udiff.rs",), ["A1", "A3", "A4", "A5"]),
         "explanation": "Decided: no lossy decoding is reachable from the byte writers and each line is written with "
                        "write_all(as_bytes(value)) (D1: call graph incl. fmt::Display edges); Display and to_writer emit the "
                        "same (guard, template) sequence incl. header-once and missing-newline logic (F8); hunk header extents "
@@ -128,7 +128,7 @@ PROPERTIES = {
     },
     "C11": {
         "level": "other",
-        "rules": ["G1", "F5", "A4", ("A1", infile("types.rs", "algorithms/compact.rs", "algorithms/replace.rs"))],
+        "rules": ["G1", "F5", "F10", "A4", ("A1", infile("types.rs", "algorithms/compact.rs", "algorithms/replace.rs"))],
         "explanation": "Decided: every order-changing operation on a list of ops is followed by a rewrite of the affected "
                        "elements (G1 -> two known unrepaired swap sites); shift/grow/shrink move both indices together (F5); "
                        "every DiffOp constructed anywhere takes old_index from an old-side and new_index from a new-side "
